@@ -165,4 +165,42 @@ Lemma sem_map_with_span n x ctx p a v p1 e1 a1 :
   sem (S n) (MapWith MWSpan x) ctx p a = Some (Some (VPair v (vspan (spn p p1)), p1, e1), a1).
 Proof. intros H. cbn. now rewrite H. Qed.
 
+(* ---------- decorations (C17) ---------- *)
+Definition snd_reg (x : option sres) : option reg := match x with Some (_, a) => Some a | None => None end.
+
+Lemma sem_labelled_outcome n l c x ctx p a :
+  match sem (S n) (Labelled l c x) ctx p a, sem n x ctx p None with
+  | Some (Some (v, p1, e1), _), Some (Some (v', p1', e1'), _) => v = v' /\ p1 = p1' /\ length e1 = length e1'
+  | Some (None, _), Some (None, _) => True
+  | None, None => True
+  | _, _ => False
+  end.
+Proof.
+  cbn. destruct (sem n x ctx p None) as [[[[[v p1] e1]|] a1]|]; auto.
+  repeat split; auto. destruct c; [now rewrite map_length | reflexivity].
+Qed.
+
+Lemma sem_map_err_outcome n k x ctx p a :
+  match sem (S n) (MapErr k x) ctx p a, sem n x ctx p None with
+  | Some (Some r, _), Some (Some r', _) => r = r'
+  | Some (None, _), Some (None, Some _) => True
+  | None, None => True
+  | None, Some (None, None) => True
+  | _, _ => False
+  end.
+Proof. cbn. destruct (sem n x ctx p None) as [[[r|] [[q e]|]]|]; auto. Qed.
+
+Lemma sem_labelled_register n l c x ctx p a q e o :
+  sem n x ctx p None = Some (o, Some (q, e)) ->
+  snd_reg (sem (S n) (Labelled l c x) ctx p a)
+    = Some (add_alt_err false K a q
+             (if Nat.eqb q p then label_with K l e
+              else if andb c (Nat.ltb p q) then in_context K l (spn p q) e else e)).
+Proof. intros H. cbn. rewrite H. reflexivity. Qed.
+
+Lemma sem_map_err_failure n k x ctx p a q e :
+  sem n x ctx p None = Some (None, Some (q, e)) ->
+  sem (S n) (MapErr k x) ctx p a = Some (None, add_alt_err false K a q (map_err_fn K k e)).
+Proof. intros H. cbn. now rewrite H. Qed.
+
 End SemLaws.
